@@ -635,7 +635,10 @@ func (g *generator) getOverlappingStructDefinition(ctx *builder.MethodContext, s
 		if ctx.Signature == sig {
 			continue
 		}
-		if def, _ := g.lookup.Get(sig, ctx.AvailableContext); def != nil && len(def.RawFieldSettings) > 0 {
+		for _, def := range g.lookup.All(sig) {
+			if len(def.RawFieldSettings) == 0 {
+				continue
+			}
 			var toMethod string
 			if def, _ := g.lookup.Get(ctx.Signature, ctx.AvailableContext); def != nil && def.Explicit {
 				toMethod = fmt.Sprintf("to the %q method.", def.Name)
